@@ -15,7 +15,7 @@ func init() {
 	Register(&c13{base{
 		id: "C13", level: "exploration",
 		technique: "metamorphic monitor: template with a subset of its delimiters dashed vs the same template with the dashes removed and the governed whitespace deleted by the generator; all 2^d subsets for d <= 10 delimiters, random subsets above",
-		rule: "case = (template from a per-tag-kind corpus or a generated program, dash subset, whitespace padding of every text piece drawn from {space, tab, CR, LF}^0..4 around a non-blank core); both versions are rendered once on fresh engines; outputs must be equal and the dashed version must parse whenever the plain one does. " +
+		rule: "case = (template from a per-tag-kind corpus or a generated program, dash subset, whitespace padding of every text piece drawn from {space, tab, CR, LF}^0..4 around a non-blank core that in a sixth of the pieces starts or ends with a look-alike that is not one of the four (NBSP, VT, FF, NEL, U+2003, U+2028, U+3000, NUL, BOM, ZWSP, 0x1F, a lone 0xA0 byte)); both versions are rendered once on fresh engines; outputs must be equal and the dashed version must parse whenever the plain one does. " +
 			"Non-trivial: at least one dashed delimiter borders a text piece with whitespace on that side. Distinct = distinct dashed source.",
 		assumptions: []string{
 			"text between two tags is empty or contains a non-blank character (whether trimming continues through a tag is not stated)",
@@ -83,6 +83,8 @@ func c13Ctx() map[string]mt.Val {
 
 const wsChars = " \t\r\n"
 
+var c13NearWS = []string{"\u00a0", "\v", "\f", "\u0085", "\u2003", "\u2028", "\u3000", "\x00", "\ufeff", "\x1f", "\xa0", "\u200b"}
+
 func randWS(r *core.Rand) string {
 	n := []int{0, 0, 1, 1, 2, 3, 4}[r.Intn(7)]
 	b := make([]byte, n)
@@ -103,6 +105,13 @@ func padPieces(r *core.Rand, ps []mt.Piece) []mt.Piece {
 		corep := strings.Trim(out[i].Text, wsChars)
 		if corep == "" {
 			corep = []string{"x", "é", ".", "w"}[r.Intn(4)]
+		}
+		// characters that look like whitespace but are not among the four the statement names: trimming must stop at them
+		if r.P(1, 6) {
+			corep = c13NearWS[r.Intn(len(c13NearWS))] + randWS(r) + corep
+		}
+		if r.P(1, 6) {
+			corep = corep + randWS(r) + c13NearWS[r.Intn(len(c13NearWS))]
 		}
 		out[i].Text = randWS(r) + corep + randWS(r)
 	}
